@@ -7,6 +7,7 @@ use super::{
     tracker::{Type, TypeTracker},
     DecodeError,
 };
+use std::convert::TryFrom;
 use std::{error, fmt, result, slice};
 
 use crate::grammar::CoreInstructionTable as GInstTable;
@@ -344,7 +345,11 @@ impl<'c, 'd> Parser<'c, 'd> {
         let mut operands = vec![];
 
         let number = self.decoder.bit32()?;
-        if let Some(g) = GInstTable::lookup_opcode(number as u16) {
+        // Opcode numbers are 16 bits wide: do not truncate larger numbers into range.
+        let grammar = u16::try_from(number)
+            .ok()
+            .and_then(GInstTable::lookup_opcode);
+        if let Some(g) = grammar {
             // TODO: check whether this opcode is allowed here.
             operands.push(dr::Operand::LiteralSpecConstantOpInteger(g.opcode));
 
